@@ -3,7 +3,7 @@ from vlib import world
 
 CH = "channel.HTTPChannel"
 JOBS = [
-    (CH + "._flush_some", "IO"), (CH + "._flush_some", "IOL"), (CH + "._flush_some", "W"),
+    (CH + "._flush_some", "IOL"), (CH + "._flush_some", "W"),       # no unlocked caller is left (FX-C04-40d7a9a)
     (CH + "._flush_some_if_lockable", "IO"),
     (CH + "._flush_outbufs_below_high_watermark", "W"),
     (CH + ".write_soon", "W"),
